@@ -169,6 +169,19 @@ func init() {
 		}
 		return nil
 	}
+	verifAPI["verifSchedules"] = func(e *Exec, args []Value, st string) Value {
+		// explore every interleaving of goroutines at channel-operation granularity (choose decisions)
+		e.schedExplore = args[0].(*Term).V != 0
+		return nil
+	}
+	verifAPI["verifLeaked"] = func(e *Exec, args []Value, st string) Value {
+		// number of goroutines that can never finish once the harness goroutine stops communicating
+		left := e.settle()
+		if len(left) > 0 {
+			e.leakDesc = e.describeBlocked()
+		}
+		return BV(64, uint64(len(left)))
+	}
 	verifAPI["verifMapOrder"] = func(e *Exec, args []Value, st string) Value {
 		e.mapOrder = args[0].(*Term).V != 0
 		return nil
